@@ -228,7 +228,14 @@ fn check_one<D: Subject>(cx: &mut Ctx, e: &E, input_i: usize, shrink_it: bool) {
                 (Outcome::Bad(_, g), _) => ((), g),
                 _ => ((), got.clone()),
             };
-            let witness = format!("{} | {} | $={}", D::NAME, wsrc.replace('\n', "\\n"), ins[wi].0);
+            // the recorded else-chain defect (last arm conditional, no arm matches: nothing is left for the end of
+            // the expression) has one signature per failure kind and implementation, whatever conditions and atoms
+            // the minimal witness happens to keep; every other failure keeps its exact witness
+            let witness = if kind.starts_with("run-err[") && corpus::ends_chain_with_conditional(&w) {
+                format!("{} | <else-chain whose last arm is conditional>", D::NAME)
+            } else {
+                format!("{} | {} | $={}", D::NAME, wsrc.replace('\n', "\\n"), ins[wi].0)
+            };
             cx.violation(
                 &kind,
                 &witness,
